@@ -248,7 +248,7 @@ func (e *Engine) VerifyFunc(fn *ssa.Function, fc *FuncContract) (v *FnVerifier) 
 	}
 	v.entry = st.clone()
 	// the pre-state must share lazily created heap versions with st: same epoch => same names
-	for _, rq := range fc.Requires {
+	for _, rq := range append(append([]*Clause(nil), fc.Requires...), fc.Given...) {
 		env := fr.specEnv(st, nil)
 		g, extra := env.boolTerm(rq.Expr)
 		for _, x := range extra {
